@@ -191,3 +191,133 @@ def _inline_one(f, notes):
                 stores[a] = -1
                 return True
     return False
+
+
+# ------------------------------------------------------------------------------------------------------------------ generator helpers
+def _own_loop_jumps(body):
+    """break / continue statements that belong to the loop whose body this is (not to a nested loop)"""
+    found = []
+
+    def walk(stmts):
+        for s in stmts:
+            if isinstance(s, (ast.Break, ast.Continue)):
+                found.append(s)
+            elif isinstance(s, (ast.For, ast.While, ast.FunctionDef, ast.AsyncFunctionDef, ast.ClassDef)):
+                if isinstance(s, (ast.For, ast.While)):
+                    walk(s.orelse)
+            else:
+                for fld in ("body", "orelse", "finalbody"):
+                    walk(getattr(s, fld, []) or [])
+                for h in getattr(s, "handlers", []) or []:
+                    walk(h.body)
+    walk(body)
+    return found
+
+
+def is_generator(fdef):
+    for n in ast.walk(fdef):
+        if isinstance(n, (ast.Yield, ast.YieldFrom)):
+            return True
+    return False
+
+
+class _Rename(ast.NodeTransformer):
+    def __init__(self, m):
+        self.m = m
+
+    def visit_Name(self, node):
+        if node.id in self.m:
+            return ast.copy_location(ast.Name(id=self.m[node.id], ctx=node.ctx), node)
+        return node
+
+
+def inline_generators(fdef, lookup, notes=None):
+    """`for T in G(a1, ..): B` where G is a helper of the same module WITHOUT a contract whose body yields  ==>  G's body with its locals renamed
+    apart, `yield e` replaced by `T = e; B` and `yield from it` by `for T in it: B` (the consumer's body runs where the generator is suspended,
+    which is exactly the interleaving of a lazily consumed generator). Side conditions, all syntactic; anything else is left alone (and is then
+    outside the subset, as before):
+      - G has plain positional parameters (defaults allowed), no *args / **kwargs, no nested def / lambda / class, no `return`, no `global` /
+        `nonlocal`, and every yield is a statement of its own (`yield e` / `yield from e`; the value of the yield expression is not used);
+      - the call passes positional / keyword arguments only; the loop has no `else`, its body has no `break` / `continue` of its own
+        (abandoning or re-entering the suspended generator is not modelled) and does not mention a name G uses as a local;
+      - a generator abandoned by a `return` or an exception in B is simply not resumed: the same in the inlined text.
+    lookup(call_func_node) -> (FunctionDef, binds_self) or None."""
+    fdef = copy.deepcopy(fdef)
+    counter = [0]
+
+    class T(ast.NodeTransformer):
+        def visit_For(self, node):
+            self.generic_visit(node)
+            it = node.iter
+            if not isinstance(it, ast.Call) or node.orelse:
+                return node
+            hit = lookup(it.func)
+            if hit is None:
+                return node
+            g, binds_self = hit
+            if not is_generator(g):
+                return node
+            a = g.args
+            if a.vararg or a.kwarg or a.kwonlyargs or getattr(a, "posonlyargs", None):
+                return node
+            if any(isinstance(n, (ast.FunctionDef, ast.Lambda, ast.ClassDef, ast.Return, ast.Global, ast.Nonlocal, ast.AsyncFunctionDef)) for s in g.body for n in ast.walk(s)):
+                return node
+            yields = [n for s in g.body for n in ast.walk(s) if isinstance(n, (ast.Yield, ast.YieldFrom))]
+            stmts = [n for s in g.body for n in ast.walk(s) if isinstance(n, ast.Expr) and isinstance(n.value, (ast.Yield, ast.YieldFrom))]
+            if len(yields) != len(stmts) or any(isinstance(y, ast.Yield) and y.value is None for y in yields):
+                return node
+            if any(isinstance(x, ast.Starred) for x in it.args) or any(k.arg is None for k in it.keywords):
+                return node
+            if _own_loop_jumps(node.body):
+                return node
+            params = [x.arg for x in a.args]
+            actual = list(it.args)
+            if binds_self:
+                if not isinstance(it.func, ast.Attribute):
+                    return node
+                actual = [it.func.value] + actual
+            if len(actual) > len(params):
+                return node
+            bound = dict(zip(params, actual))
+            for k in it.keywords:
+                if k.arg not in params or k.arg in bound:
+                    return node
+                bound[k.arg] = k.value
+            for nm, d in zip(params[len(params) - len(a.defaults):], a.defaults):
+                bound.setdefault(nm, d)
+            if any(p not in bound for p in params):
+                return node
+            counter[0] += 1
+            glocals = set(params) | {n.id for s in g.body for n in ast.walk(s) if isinstance(n, ast.Name) and isinstance(n.ctx, (ast.Store, ast.Del))}
+            ren = {n: "_gen%d_%s" % (counter[0], n) for n in glocals}
+            used_in_consumer = {n.id for s in node.body + [node.target] for n in ast.walk(s) if isinstance(n, ast.Name)}
+            if used_in_consumer & set(ren.values()):
+                return node
+            out = []
+            # arguments are evaluated once, left to right, when the generator object is created; the body starts at the first next()
+            for p_ in params:
+                if p_ in [x for x in bound]:
+                    out.append(ast.Assign(targets=[ast.Name(id=ren[p_], ctx=ast.Store())], value=copy.deepcopy(bound[p_]), lineno=node.lineno, col_offset=node.col_offset))
+            body = [_Rename(ren).visit(copy.deepcopy(s)) for s in g.body
+                    if not (isinstance(s, ast.Expr) and isinstance(s.value, ast.Constant) and isinstance(s.value.value, str))]
+
+            class Y(ast.NodeTransformer):
+                def visit_Expr(self, e):
+                    if isinstance(e.value, ast.Yield):
+                        asg = ast.Assign(targets=[copy.deepcopy(node.target)], value=e.value.value, lineno=e.lineno, col_offset=e.col_offset)
+                        return [asg] + copy.deepcopy(node.body)
+                    if isinstance(e.value, ast.YieldFrom):
+                        return ast.For(target=copy.deepcopy(node.target), iter=e.value.value, body=copy.deepcopy(node.body), orelse=[],
+                                       lineno=e.lineno, col_offset=e.col_offset)
+                    return e
+            for s in body:
+                r = Y().visit(s)
+                out.extend(r if isinstance(r, list) else [r])
+            if notes is not None:
+                notes.append("generator helper %s() consumed by the loop at line %d: inlined (its body runs interleaved with the loop body)" % (g.name, node.lineno))
+            for s in out:
+                ast.fix_missing_locations(s)
+            return out
+    new = T().visit(fdef)
+    ast.fix_missing_locations(new)
+    return new
